@@ -448,7 +448,12 @@ def values_equal(a, b, rtol=1e-9, atol=1e-12):
             return False
         if a[0] == "H" and b[0] == "H" and (a[1] != b[1] or a[2] != b[2]):
             return False
-        return all(close(ha.get(h, 0.0), hb.get(h, 0.0)) for h in set(ha) | set(hb))
+        # hours at which large terms cancel carry a float residue proportional to those terms, not to the (near zero) result:
+        # an absolute tolerance of 1e-12 of the largest value of the two series is added
+        scale = max([abs(v) for v in ha.values() if not math.isnan(v)] + [abs(v) for v in hb.values() if not math.isnan(v)]
+                    + [0.0])
+        return all(close(ha.get(h, 0.0), hb.get(h, 0.0)) or abs(ha.get(h, 0.0) - hb.get(h, 0.0)) <= 1e-12 * scale
+                   for h in set(ha) | set(hb))
     # scalars / empty
     xa = a[2] if a[0] == "Q" else 0.0
     xb = b[2] if b[0] == "Q" else 0.0
